@@ -86,6 +86,30 @@ def gen_case(rnd):
                 sqlpre=sqlpre, placeholder=rnd.random() < 0.3, autoparse=rnd.random() < 0.25, tgran=tgran, bare_dims=rnd.random() < 0.6, user_style=rnd.random() < 0.5)
 
 
+def gen_ungrouped_dims_only(rnd):
+    """targeted family: an UNGROUPED query that asks for dimensions only, over rows that repeat their dimension values (and NULLs): one output row per surviving base
+    row, sliced by ORDER BY / LIMIT / OFFSET over all of them"""
+    case = gen_case(rnd)
+    while not [e for e in case["dims"] if e[0] != "tdim"]:
+        case = gen_case(rnd)
+    case["dims"] = [e for e in case["dims"] if e[0] != "tdim"][:2]
+    case["mets"], case["ungrouped"] = [], True
+    case["filters"] = [f for f in case["filters"] if "dref" not in repr(f)]          # filters that name a dimension by position refer to the untruncated list
+    rows = [list(r) for r in case["rows"]] or [[1, 1, 2, 0, "a", 1, "k0"]]
+    base = len(rows)
+    for k in range(rnd.choice([2, 3, 5])):           # repeat rows under new keys: equal dimension values on different base rows
+        src = list(rows[k % base])
+        src[sg.ID], src[sg.ID2] = 1000 + k, "r%d" % k
+        rows.append(src)
+    case["rows"] = rows
+    idxs = list(range(len(case["dims"])))
+    rnd.shuffle(idxs)
+    case["order"] = [(i, rnd.random() < 0.5) for i in idxs] if rnd.random() < 0.6 else []
+    case["limit"] = rnd.choice([None, None, 2, 3, 50]) if case["order"] else None
+    case["offset"] = rnd.choice([None, 1, 2]) if case["order"] and rnd.random() < 0.4 else None
+    return case
+
+
 def gen_literal_twins(rnd):
     """targeted family: several filters (or one conjunction, or measure filters) that differ ONLY in the case or the inner spacing of a string literal
     ('a' / 'A', 'a b' / 'a  b'), on data that holds all of those values: each predicate is its own predicate"""
@@ -240,6 +264,9 @@ def run(c):
     n = 400 if c.tier == "quick" else 6000
     cases = [gen_case(c.rng) for _ in range(n)]
     cases += [gen_literal_twins(c.rng) for _ in range(max(12, n // 20))]
+    import random as _random
+    rng_u = _random.Random(c.seed * 37 + 3)          # a stream of its own
+    cases += [gen_ungrouped_dims_only(rng_u) for _ in range(max(10, n // 30))]
     for k, case in enumerate(cases):
         if k % 3 == 0:
             case["primed"] = True      # asked on a layer that has already answered the same fields in the opposite order, without filters and without slicing
